@@ -26,6 +26,8 @@ CONSTANTS
     MaxRestarts, \* clean restarts
     Alias, BlockFirst,
     ApplyAtStart, \* BOOLEAN: SyncLoop applies cached complete blocks when it starts (FALSE = pinned tree)
+    EvictEarly,  \* BOOLEAN deviation: the applied block's parts are evicted and marked seen right after the block save
+    WriteFails,  \* BOOLEAN: a durable write of block application may be refused with an error (orderly shutdown)
     Mix,         \* BOOLEAN: allow a crash after a clean restart in the same behaviour (stale cache files)
     Rec
 
@@ -112,11 +114,16 @@ TryNext ==
 SaveState == [kv EXCEPT !.stateH = Nxt]
 SaveBlock == [kv EXCEPT !.blocks = @ \cup {Nxt}]
 
+Evicted == /\ hc' = hc \ {Nxt} /\ dc' = dc \ {Nxt}
+           /\ seenH' = seenH \cup {Nxt}
+           /\ seenD' = IF IsEmpty(Nxt) THEN seenD ELSE seenD \cup {DKey(Nxt)}
+
 Write1 ==
     /\ pc = "w1"
     /\ kv' = IF BlockFirst THEN SaveBlock ELSE SaveState
     /\ wc' = wc + 1 /\ pc' = "w2"
-    /\ UNCHANGED <<left, got, hc, dc, seenH, seenD, files, curEv, execLog, crashes, restarts, hist>>
+    /\ IF EvictEarly THEN Evicted ELSE UNCHANGED <<hc, dc, seenH, seenD>>
+    /\ UNCHANGED <<left, got, files, curEv, execLog, crashes, restarts, hist>>
 
 Write2 ==
     /\ pc = "w2"
@@ -128,9 +135,7 @@ SetHeightEvict ==
     /\ pc = "w3"
     /\ kv' = [kv EXCEPT !.height = Nxt]
     /\ wc' = wc + 1
-    /\ hc' = hc \ {Nxt} /\ dc' = dc \ {Nxt}
-    /\ seenH' = seenH \cup {Nxt}
-    /\ seenD' = IF IsEmpty(Nxt) THEN seenD ELSE seenD \cup {DKey(Nxt)}
+    /\ IF EvictEarly THEN UNCHANGED <<hc, dc, seenH, seenD>> ELSE Evicted
     /\ pc' = "try"
     /\ UNCHANGED <<left, got, files, curEv, execLog, crashes, restarts, hist>>
 
@@ -144,6 +149,17 @@ CleanRestart ==
     /\ pc' = IF ApplyAtStart THEN "try" ELSE "idle"     \* SyncLoop applies what the loaded caches allow
     /\ wc' = 0
     /\ UNCHANGED <<left, got, hc, dc, seenH, seenD, curEv, execLog, crashes>>
+
+\* a durable write of block application is refused with an error (disk full, I/O error): trySyncNextBlock returns
+\* it, SyncLoop reports it, the node shuts down in an orderly way (caches saved as they are: the block's parts are
+\* still cached, eviction comes after the height write) and stays down until it is started again
+WriteFail ==
+    /\ WriteFails /\ pc \in {"w1", "w2", "w3"} /\ crashes < MaxCrashes /\ (Mix \/ restarts = 0)
+    /\ crashes' = crashes + 1
+    /\ files' = [hc |-> hc, dc |-> dc, seenH |-> seenH, seenD |-> seenD]
+    /\ hist' = H([a |-> "wfail", kind |-> "", h |-> 0, w |-> wc])
+    /\ pc' = "down" /\ curEv' = NoEv
+    /\ UNCHANGED <<left, got, kv, hc, dc, seenH, seenD, execLog, restarts, wc>>
 
 Crash ==
     /\ pc \in {"try", "w1", "w2", "w3"} /\ crashes < MaxCrashes /\ (Mix \/ restarts = 0)
@@ -168,7 +184,7 @@ Recover ==
 Next ==
     \/ \E e \in Events : RecvHeader(e) \/ RecvData(e)
     \/ TryNext \/ Write1 \/ Write2 \/ SetHeightEvict
-    \/ CleanRestart \/ Crash \/ Recover
+    \/ CleanRestart \/ Crash \/ WriteFail \/ Recover
 
 Spec == Init /\ [][Next]_vars
 LiveSpec == Spec /\ WF_vars(TryNext) /\ WF_vars(Write1) /\ WF_vars(Write2) /\ WF_vars(SetHeightEvict) /\ WF_vars(Recover)
